@@ -12,8 +12,8 @@ import (
 )
 
 func init() {
-	register("C09", "Linking: (R1) the set of AST fields the walker writes is exactly the 'requires validation' set (13 links + Used); every unconditional link of a node is stored on every path before that node's observers run; (R2) every conditional link (value links, the type in scope of an inline fragment) is control-dependent only on the resolvability tests it needs (frozen guard table: nil tests of the looked-up definition, kind tests, CurrentOperation) — an extra guard can only drop links of valid documents; (R3) provenance — each stored link is the lookup the property names (field definition on the parent type by the field's own name, directive definition by name, fragment by name, list child from Elem, object child from the field found under the child's name, argument from the argument definition found under the argument's name); (R4) CurrentOperation is set before, and cleared after, every walk inside walkOperation; (R5) every child of every node is walked before the node's observers run (shared with C08.R3). (R3 also) the argument definition handed to walkArgument is found under the argument own name on the list of the field or directive walked.", runC09)
-	register("C08", "Validation coverage (weak, structural): (R1) the rules registered by init functions are exactly the specification's rules the library implements plus KnownRootType and MaxIntrospectionDepth, and every exported Rule is registered or a WithoutSuggestions twin; (R2) every schema attribute the specification's validation rules depend on is read by code reachable from the default rules and the walker; (R3) every event list is dispatched, for every node kind, on every path, and every child-bearing field of every executable node is walked (directives with the location constant of their node) before the node's observers run; (R4) type compatibility (Type.IsCompatible) compares like with like and reads NonNull of both sides at every level; the pair cache of the field-merge algorithm answers 'already compared' for a non-exclusive query only from a non-exclusive entry; (R5) a visited set that keeps its entries (a memo) cuts a traversal only when every used scalar parameter that changes while the set is in use is part of its key. (R3 also) the fragment visited set is renewed per operation.", runC08)
+	register("C09", "Linking: (R1) the set of AST fields the walker writes is exactly the 'requires validation' set (13 links + Used); every unconditional link of a node is stored on every path before that node's observers run; (R2) every conditional link (value links, the type in scope of an inline fragment) is control-dependent only on the resolvability tests it needs (frozen guard table: nil tests of the looked-up definition, kind tests, CurrentOperation) — an extra guard can only drop links of valid documents; (R3) provenance — each stored link is the lookup the property names (field definition on the parent type by the field's own name, directive definition by name, fragment by name, list child from Elem, object child from the field found under the child's name, argument from the argument definition found under the argument's name); (R4) CurrentOperation is set before, and cleared after, every walk inside walkOperation; (R5) every child of every node is walked before the node's observers run (shared with C08.R3). (R3 also) the argument definition handed to walkArgument is found under the argument own name on the list of the field or directive walked. (R6) the links are written by the walker only.", runC09)
+	register("C08", "Validation coverage (weak, structural): (R1) the rules registered by init functions are exactly the specification's rules the library implements plus KnownRootType and MaxIntrospectionDepth, and every exported Rule is registered or a WithoutSuggestions twin; (R2) every schema attribute the specification's validation rules depend on is read by code reachable from the default rules and the walker; (R3) every event list is dispatched, for every node kind, on every path, and every child-bearing field of every executable node is walked (directives with the location constant of their node) before the node's observers run; (R4) type compatibility (Type.IsCompatible) compares like with like and reads NonNull of both sides at every level; the pair cache of the field-merge algorithm answers 'already compared' for a non-exclusive query only from a non-exclusive entry; (R5) a visited set that keeps its entries (a memo) cuts a traversal only when every used scalar parameter that changes while the set is in use is part of its key. (R3 also) the fragment visited set is renewed per operation. (R6) the links and expected types the rules read have the provenance and guards the specification names (C09.R2/R3).", runC08)
 }
 
 // ---------------------------------------------------------------------------
@@ -299,28 +299,7 @@ func runC09(c *Ctx) {
 		return
 	}
 	// ---- the written set
-	written := map[annot][]fieldStoreSite{}
-	for _, fn := range m.fns {
-		allInstrs(fn, func(in ssa.Instruction) {
-			s, ok := in.(*ssa.Store)
-			if !ok {
-				return
-			}
-			fa, ok := s.Addr.(*ssa.FieldAddr)
-			if !ok {
-				return
-			}
-			n, f, _, _ := fieldOf(fa)
-			if n == nil || n.Obj().Pkg() == nil || !strings.HasSuffix(n.Obj().Pkg().Path(), "/ast") {
-				return
-			}
-			// stores into a fresh literal (the synthetic __typename definition) are not links on the document
-			if a, ok := fa.X.(*ssa.Alloc); ok && isFresh(a) {
-				return
-			}
-			written[annot{n.Obj().Name(), f}] = append(written[annot{n.Obj().Name(), f}], fieldStoreSite{fn, s, fa})
-		})
-	}
+	written := walkerWrites(m)
 	want := map[annot]bool{}
 	for _, a := range wantAnnotations {
 		want[a] = true
@@ -489,6 +468,84 @@ func runC09(c *Ctx) {
 	// ---- R5 children walked before observers (shared with C08.R3)
 	r5 := c.Rule("R5", "every child is walked before the node's observers run", 14)
 	walkCoverage(c, r5, m)
+
+	// ---- R6 nobody else rewrites a link
+	r6 := c.Rule("R6", "the links are written by the walker only", 1)
+	c09OnlyWalkerWrites(c, r6, m)
+}
+
+// c09OnlyWalkerWrites: outside the walker (and the parser, which builds the nodes, and the JSON decoder, which builds
+// them from their encoding), no function of the module stores to one of the link fields of a node it did not just
+// allocate — a rule or helper that "adjusts" Value.ExpectedType or Field.Definition leaves the validated document
+// linked differently from what the property promises.
+func c09OnlyWalkerWrites(c *Ctx, r *RuleResult, m *walkerModel) {
+	p := c.P
+	isWalker := map[*ssa.Function]bool{}
+	for _, f := range m.fns {
+		isWalker[f] = true
+	}
+	want := map[annot]bool{}
+	for _, a := range wantAnnotations {
+		want[a] = true
+	}
+	// the schema loader links the directives of the SDL it loads (a schema document, not an executable one): what only
+	// it reaches is out of scope
+	e := newEffects(p)
+	var vroots, lroots []*ssa.Function
+	for _, nme := range []string{"validator.Validate", "validator.VariableValues", "ast.(*Field).ArgumentMap", "ast.(*Directive).ArgumentMap"} {
+		if f := p.Func(nme); f != nil {
+			vroots = append(vroots, f)
+		}
+	}
+	for _, f := range p.FuncsIn("validator/rules") {
+		vroots = append(vroots, f)
+	}
+	for _, f := range p.FuncsIn("formatter") {
+		vroots = append(vroots, f)
+	}
+	for _, nme := range []string{"validator.ValidateSchemaDocument", "validator.LoadSchema"} {
+		if f := p.Func(nme); f != nil {
+			lroots = append(lroots, f)
+		}
+	}
+	fromValidation := p.reachableFrom(vroots, e.dyn)
+	fromLoader := p.reachableFrom(lroots, e.dyn)
+	n, bad := 0, 0
+	for _, fn := range p.Funcs() {
+		if !p.inModule(fn) || len(fn.Blocks) == 0 || isWalker[fn] || isWalker[rootFunc(fn)] {
+			continue
+		}
+		pk := p.PkgOf(fn)
+		if pk == nil || strings.HasSuffix(pk.PkgPath, "/parser") {
+			continue
+		}
+		if (fromLoader[fn] || fromLoader[rootFunc(fn)]) && !fromValidation[fn] && !fromValidation[rootFunc(fn)] {
+			continue
+		}
+		allInstrs(fn, func(in ssa.Instruction) {
+			st, ok := in.(*ssa.Store)
+			if !ok {
+				return
+			}
+			fa, ok := st.Addr.(*ssa.FieldAddr)
+			if !ok {
+				return
+			}
+			nn, f, _, _ := fieldOf(fa)
+			if nn == nil || nn.Obj().Pkg() == nil || !strings.HasSuffix(nn.Obj().Pkg().Path(), "/ast") || !want[annot{nn.Obj().Name(), f}] {
+				return
+			}
+			n++
+			if a, isA := fa.X.(*ssa.Alloc); isA && isFresh(a) {
+				return // a node built here (a copy, a literal)
+			}
+			bad++
+			r.Fail(st.Pos(), p.FuncName(fn), "store "+nn.Obj().Name()+"."+f+" outside the walker", fmt.Sprintf("%s rewrites %s.%s of a node of the document: after validation the link is no longer the one the walker resolved (an expected type stripped of its list wrappers, a definition swapped), which is what executors read", p.FuncName(fn), nn.Obj().Name(), f))
+		})
+	}
+	if bad == 0 {
+		r.OK(fmt.Sprintf("%d stores to link fields outside the walker and the parser", n), "each into a node allocated in the same function")
+	}
 }
 
 // c09Guards checks the guard sets of conditional link stores.
@@ -1473,6 +1530,13 @@ func runC08(c *Ctx) {
 
 	r5 := c.Rule("R5", "a persistent visited set cuts a traversal only when its key determines the outcome", 3)
 	c08MemoKeys(c, r5)
+
+	// ---- R6 what the rules read is what the schema declares: the provenance of every link (shared with C09.R3) and the
+	// guards under which conditional links are stored (C09.R2)
+	r6 := c.Rule("R6", "the links and expected types the rules read are the lookups the specification names", 12)
+	written := walkerWrites(m)
+	c09Provenance(c, r6, m, written)
+	c09Guards(c, r6, m, written)
 }
 
 // typeCaseEntry: the block entered when `it.(type)` is *ast.<name>.
@@ -1776,6 +1840,10 @@ func derivesFromAny(v ssa.Value, prm *ssa.Parameter, depth int) bool {
 		return derivesFromAny(x.Tuple, prm, depth-1)
 	case *ssa.MakeInterface:
 		return derivesFromAny(x.X, prm, depth-1)
+	case *ssa.Slice:
+		return derivesFromAny(x.X, prm, depth-1)
+	case *ssa.Convert:
+		return derivesFromAny(x.X, prm, depth-1)
 	case *ssa.BinOp:
 		return derivesFromAny(x.X, prm, depth-1) || derivesFromAny(x.Y, prm, depth-1)
 	case *ssa.Phi:
@@ -1786,4 +1854,31 @@ func derivesFromAny(v ssa.Value, prm *ssa.Parameter, depth int) bool {
 		}
 	}
 	return false
+}
+
+// walkerWrites: every store the walker makes into a field of an AST node (the synthetic __typename definition excepted).
+func walkerWrites(m *walkerModel) map[annot][]fieldStoreSite {
+	written := map[annot][]fieldStoreSite{}
+	for _, fn := range m.fns {
+		allInstrs(fn, func(in ssa.Instruction) {
+			s, ok := in.(*ssa.Store)
+			if !ok {
+				return
+			}
+			fa, ok := s.Addr.(*ssa.FieldAddr)
+			if !ok {
+				return
+			}
+			n, f, _, _ := fieldOf(fa)
+			if n == nil || n.Obj().Pkg() == nil || !strings.HasSuffix(n.Obj().Pkg().Path(), "/ast") {
+				return
+			}
+			// stores into a fresh literal (the synthetic __typename definition) are not links on the document
+			if a, ok := fa.X.(*ssa.Alloc); ok && isFresh(a) {
+				return
+			}
+			written[annot{n.Obj().Name(), f}] = append(written[annot{n.Obj().Name(), f}], fieldStoreSite{fn, s, fa})
+		})
+	}
+	return written
 }
